@@ -163,6 +163,89 @@ impl Ctx {
     }
 }
 
+/// The client under test, configured through `client::Builder` in the call order the vector names. `TLS` is
+/// `with_tls(config)` when the vector says a TLS configuration is present and `without_tls()` otherwise: whatever
+/// else is called in between, the state at `build()` must be the last one set.
+fn build_client(wiring: &str, tls_on: bool, ccfg: rustls::ClientConfig, mem: MemTransport, spx: usize) -> hyperdriver::Client {
+    use hyperdriver::client::conn::transport::tcp::TcpTransportConfig;
+    let proto = HttpConnectionBuilder::<hyperdriver::Body>::default;
+    macro_rules! tls {
+        ($b:expr) => {
+            if tls_on { $b.with_tls(ccfg.clone()) } else { $b.without_tls() }
+        };
+    }
+    match wiring {
+        "transport-then-tls" => {
+            let b = hyperdriver::Client::builder().with_protocol(proto()).with_transport(mem).with_default_pool();
+            tls!(b).build()
+        }
+        "tls-then-transport" => {
+            let b = hyperdriver::Client::builder().with_protocol(proto()).with_default_pool();
+            tls!(b).with_transport(mem).build()
+        }
+        "tls-then-protocol" => {
+            let b = hyperdriver::Client::builder().with_transport(mem).with_default_pool();
+            if spx % 2 == 0 {
+                tls!(b).with_protocol(proto()).build()
+            } else {
+                tls!(b).with_auto_http().build()
+            }
+        }
+        "tls-then-tcp-transport" => {
+            let b = hyperdriver::Client::builder().with_protocol(proto()).with_default_pool();
+            tls!(b).with_tcp(TcpTransportConfig::default()).with_transport(mem).build()
+        }
+        "tls-then-redirect" => {
+            let b = hyperdriver::Client::builder().with_protocol(proto()).with_transport(mem).with_default_pool();
+            // (with_redirect_policy needs a tower-http policy type, which the harness crate cannot name)
+            if spx % 2 == 0 {
+                tls!(b).with_standard_redirect_policy().build()
+            } else {
+                tls!(b).without_redirects().build()
+            }
+        }
+        "tls-then-body-layer" => {
+            let b = hyperdriver::Client::builder().with_protocol(proto()).with_transport(mem).with_default_pool();
+            tls!(b)
+                .with_body::<hyperdriver::Body, hyperdriver::Body>()
+                .layer(tower::layer::util::Identity::new())
+                .build()
+        }
+        "tls-then-mutators" => {
+            let b = hyperdriver::Client::builder().with_protocol(proto()).with_transport(mem);
+            let b = tls!(b)
+                .with_pool(hyperdriver::client::PoolConfig::default())
+                .with_timeout(Duration::from_secs(20))
+                .with_user_agent("verif/0".to_string());
+            let b = if spx % 2 == 0 { b.without_timeout() } else { b.with_optional_timeout(Some(Duration::from_secs(25))).without_pool().with_default_pool() };
+            b.build()
+        }
+        "default-then-transport" => {
+            // the default builder comes with a TLS configuration (platform roots): replacing the transport must keep it
+            let b = hyperdriver::Client::build_tcp_http();
+            if tls_on {
+                b.with_transport(mem).build()
+            } else {
+                b.without_tls().with_transport(mem).build()
+            }
+        }
+        "tls-reset" => {
+            let b = hyperdriver::Client::builder().with_protocol(proto()).with_transport(mem).with_default_pool();
+            if tls_on {
+                if spx % 2 == 0 { b.without_tls().with_tls(ccfg).build() } else { b.with_default_tls().with_tls(ccfg).build() }
+            } else {
+                b.with_tls(ccfg).without_tls().build()
+            }
+        }
+        "accessor-then-transport" => {
+            let mut b = hyperdriver::Client::builder().with_protocol(proto()).with_default_pool();
+            *b.tls() = if tls_on { Some(ccfg) } else { None };
+            b.with_transport(mem).build()
+        }
+        w => panic!("unknown wiring {w}"),
+    }
+}
+
 fn err_kind<E: std::fmt::Debug + std::fmt::Display>(e: &E) -> (String, String) {
     let d = format!("{e:?}");
     let kind = d.split(|c: char| !c.is_alphanumeric()).next().unwrap_or("").to_string();
@@ -183,6 +266,7 @@ fn run_vector(ctx: &mut Ctx, id: usize, v: &Value, spx: usize, seed: u64) -> Val
     let scfg = ctx.server_cfg(v);
     let (ccfg, asked) = ctx.certs.client_config(&calpn(v));
     let tls_on = s(v, "wrapper") == "tls";
+    let wiring_v = v.get("wiring").and_then(|x| x.as_str()).unwrap_or("transport-then-tls").to_string();
     let prev = v.get("prev").and_then(|x| x.as_str()).unwrap_or("none").to_string();
     let hist = v.get("hist").and_then(|x| x.as_str()).unwrap_or("idle").to_string();
     let prev_marker = format!("PREV-{id}-{spx}-c12verif");
@@ -261,12 +345,7 @@ fn run_vector(ctx: &mut Ctx, id: usize, v: &Value, spx: usize, seed: u64) -> Val
                     }
                 };
             } else {
-                let b = hyperdriver::Client::builder()
-                    .with_protocol(HttpConnectionBuilder::default())
-                    .with_transport(mem)
-                    .with_default_pool();
-                let b = if tls_on { b.with_tls(ccfg) } else { b.without_tls() };
-                let mut client = b.build();
+                let mut client = build_client(&wiring_v, tls_on, ccfg, mem, spx);
                 let h2 = hist == "inflight";
                 let rb = if h2 { rb.version(http::Version::HTTP_2) } else { rb };
                 // the marker travels in the request head; the path keeps the spelling's path
@@ -514,6 +593,11 @@ fn main() {
     let mut ctx = Ctx { certs: Certs { dir: certdir }, scache: HashMap::new() };
     let mut out = vh::trace::TraceOut::create(&args[4]);
     let mut n = 0usize;
+    // the default builder loads the platform's root certificates and panics without them: such a machine cannot
+    // run the default-builder wiring (reported, not a verdict)
+    let default_tls_ok = std::panic::catch_unwind(|| hyperdriver::client::default_tls_config()).is_ok();
+    let _ = take_panics();
+    let mut skipped_default = 0usize;
     for (i, v) in vectors.iter().enumerate() {
         let id = v.get("id").and_then(|x| x.as_u64()).map(|x| x as usize).unwrap_or(i + 1);
         // a replay object pins the spelling index
@@ -521,6 +605,10 @@ fn main() {
             Some(x) => vec![x as usize],
             None => (0..nspell).collect(),
         };
+        if !default_tls_ok && v.get("wiring").and_then(|x| x.as_str()) == Some("default-then-transport") {
+            skipped_default += 1;
+            continue;
+        }
         for spx in sps {
             let rec = run_vector(&mut ctx, id, v, spx, seed);
             if rec["obs"]["result"] == "skip" {
@@ -531,5 +619,5 @@ fn main() {
         }
     }
     out.finish();
-    println!("{}", json!({"records": n, "vectors": vectors.len()}));
+    println!("{}", json!({"records": n, "vectors": vectors.len(), "skippedDefaultBuilder": skipped_default}));
 }
